@@ -8,6 +8,7 @@ import JSight.AnnotExamples
 import JSight.AnnTreeExamples
 import JSight.ATreeStrip
 import JSight.ATreeExamples
+import JSight.AnnotQExamples
 /-!
 # C13 — Meaning is invariant under surface syntax: the part that is a theorem
 
@@ -457,5 +458,90 @@ example := C13_annotated_tree_layout_invariant [] [.nl 10] AT.Ex.t1 AT.Ex.t2 [] 
   AT.Ex.t2_line AT.Ex.t1_tok AT.Ex.t2_tok
 example := C13_annotated_tree_inline_vs_multiline [] [.nl 10] AT.Ex.t1 AT.Ex.t2 [] [.nl 10] AT.Ex.same_strip rfl AT.Ex.t1_line
   AT.Ex.t2_line AT.Ex.t1_tok AT.Ex.t2_tok
+
+end Props.C13
+
+namespace Props.C13
+open Lay SchemaScan
+
+/-! ## Schema side: QUOTED rule names and LIST values in an annotation, on texts (work package c02text3; modules `AnnotQStep`,
+`AnnotQRun`, `AnnotQList`, `AnnotQObj`, `AnnotQLoad`, `QNameBytes`, `AnnotQThm`, `AnnotQExamples`)
+
+The grammar `Lay.GObj` (`C02TextGrammar2`): a rule is `blanks NAME spaces ":" blanks VALUE blanks`, NAME bare or QUOTED — `"` + any
+characters of the JSON string grammar (`RulesF.SCh`: raw UTF-8, two-character escapes, `\uXXXX`) + `"` —, VALUE a literal token or a
+LIST `[ item, … ]` of literal tokens with blanks (line breaks in the multi-line form) around the items.
+What the scanner model does with a quoted name (`annot_eventsQ`, proved from `dispatch` at configurations that carry the scanner's
+`boundaryQuote` flag as a parameter — a quoted name sets it and only the next BARE name clears it, so everything behind a quoted
+name, the tail of the annotation and the white space behind it included, runs with the flag set): key-begin at the OPENING quote,
+key-end with the span from the opening to the CLOSING quote — the quotes are INSIDE the span, the spaces before the colon are not
+(a bare name's key-end span runs to the byte before the colon, spaces included). The loader (`Loader.step`) binds
+`TrimSpaces().Unquote()` of that span: the DECODED name (`RulesF.text`, by `C02_unquote_is_decode`). A list value is passed
+through the rule loader's `embContainer` state — when the decoded name is `or` / `enum` / `allOf`; under any other name the loader
+answers error 802 at the bracket (`Loader.st_value_list_plain`) — and recorded as the span from `[` to `]`. -/
+
+/-- the resolved node table with the source positions of the rules erased -/
+def noPos (n : Compile.RNode) : Compile.RNode := { n with rules := n.rules.map C02T.erase }
+
+/-- **an annotated scalar of the extended grammar loads into one literal node** whose rules are the pairs (decoded name, value
+text) in written order; `pairsEmb`: list values sit under `or` / `enum` / `allOf` -/
+theorem C13_annotated_scalar_loads_extended (a : Ann) (ha : a.isAnn = true) (tok s1 s2 : List UInt8) (ob : GObj)
+    (s3 tl : List UInt8) (hv : GAnnValid a tok s1 s2 ob s3 tl) (he : pairsEmb ob.pairs) :
+    ∃ st, Loader.loadText (gannText a tok s1 s2 ob s3 tl) = .ok st ∧ st.root = some 0 ∧
+      absTable (gannText a tok s1 s2 ob s3 tl).toArray st = [annNode tok (ob.pairs.map Prod.fst)] ∧
+      (st.nodes.toList.map (Compile.resolve (gannText a tok s1 s2 ob s3 tl).toArray)).map noPos
+        = [C02T.node tok (C02T.mk ob.pairs)] := by
+  obtain ⟨st, rs, h1, h2, h3, h4, h5⟩ := load_gannot a ha tok s1 s2 ob s3 tl hv (listsEmb_of_pairs ob he)
+  exact ⟨st, h1, h2, h5, by rw [h3]; simp [noPos, C02T.node, h4]⟩
+
+/-- **quoted versus bare rule names, on texts**: two annotations on the same EXAMPLE whose rule objects have the same pairs
+(DECODED name, value text) — i.e. that differ only in quoting / escaping their rule names (`"min"`, `"m\u0069n"`, `min`), in the
+form of the annotation (inline / multi-line), in layout and trailing comma — are both accepted by scanner model + loader model
+and load into the same table: same root, same node table read against the text (`absTable`: kinds, values, rule names), same
+resolved rules (names AND value texts, in written order) up to source positions -/
+theorem C13_quoted_vs_bare_rule_names (a a' : Ann) (ha : a.isAnn = true) (ha' : a'.isAnn = true)
+    (tok s1 s2 s1' s2' : List UInt8) (ob ob' : GObj) (s3 tl s3' tl' : List UInt8)
+    (hv : GAnnValid a tok s1 s2 ob s3 tl) (hv' : GAnnValid a' tok s1' s2' ob' s3' tl')
+    (hsame : ob.pairs = ob'.pairs) (he : pairsEmb ob.pairs) :
+    ∃ st st', Loader.loadText (gannText a tok s1 s2 ob s3 tl) = .ok st ∧
+      Loader.loadText (gannText a' tok s1' s2' ob' s3' tl') = .ok st' ∧ st.root = st'.root ∧
+      absTable (gannText a tok s1 s2 ob s3 tl).toArray st = absTable (gannText a' tok s1' s2' ob' s3' tl').toArray st' ∧
+      (st.nodes.toList.map (Compile.resolve (gannText a tok s1 s2 ob s3 tl).toArray)).map noPos
+        = (st'.nodes.toList.map (Compile.resolve (gannText a' tok s1' s2' ob' s3' tl').toArray)).map noPos := by
+  obtain ⟨st, h1, h2, h3, h4⟩ := C13_annotated_scalar_loads_extended a ha tok s1 s2 ob s3 tl hv he
+  obtain ⟨st', h1', h2', h3', h4'⟩ := C13_annotated_scalar_loads_extended a' ha' tok s1' s2' ob' s3' tl' hv' (hsame ▸ he)
+  exact ⟨st, st', h1, h1', by rw [h2, h2'], by rw [h3, h3', hsame], by rw [h4, h4', hsame]⟩
+
+/-- **the events of the extended grammar**, exactly (`annEvsQ`): quoted names with the span from quote to quote, list values with
+their item events between array-begin and array-end -/
+theorem C13_annotation_events_extended (a : Ann) (ha : a.isAnn = true) (tok s1 s2 : List UInt8) (ob : GObj)
+    (s3 tl : List UInt8) (hv : GAnnValid a tok s1 s2 ob s3 tl) :
+    scanAll (gannText a tok s1 s2 ob s3 tl)
+      = .ok (annEvsQ a (tok.map classify) (s1.map classify) (s2.map classify) ob.cls (s3.map classify) (tl.map classify)) :=
+  annot_eventsQ a ha tok s1 s2 ob s3 tl hv
+
+/-- every JSON string token can be a rule name: the scanner's key automaton accepts it -/
+theorem C13_any_json_string_is_a_rule_name (cs : List RulesF.SCh) (hok : ∀ c ∈ cs, c.ok) :
+    IsKey ((34 :: (cs.flatMap RulesF.SCh.render ++ [34])).map classify) := isKey_of_str cs hok
+
+/-! Non-vacuity: `1 // {"min": 0, "max" :5, }` (inline, quoted, one name escaped, trailing comma) and
+`1 /*⏎ {min: 0,⏎ max: 5⏎}⏎*/⏎` (multi-line, bare): same table. The events of the first text: the key spans [6:10] and [16:25]
+include the quotes. -/
+example := C13_quoted_vs_bare_rule_names .inline .multi rfl rfl Lay.Ex.one [32] [32] [32] [10, 32] Lay.Ex.gobQ Lay.Ex.gobB
+  [] [] [10] [42, 47, 10] Lay.Ex.gannQ_valid Lay.Ex.gannB_valid Lay.Ex.gsame_pairs Lay.Ex.gobQ_emb
+
+example : annEvsQ .inline (Lay.Ex.one.map classify) [.sp] [.sp] Lay.Ex.gobQ.cls [] [] =
+    [⟨.litB, 0, 0⟩, ⟨.litE, 0, 0⟩, ⟨.inlAnnB, 2, 3⟩, ⟨.objB, 5, 5⟩,
+      ⟨.keyB, 6, 6⟩, ⟨.keyE, 6, 10⟩, ⟨.valB, 13, 13⟩, ⟨.litB, 13, 13⟩, ⟨.litE, 13, 13⟩, ⟨.valE, 13, 13⟩,
+      ⟨.keyB, 16, 16⟩, ⟨.keyE, 16, 25⟩, ⟨.valB, 28, 28⟩, ⟨.litB, 28, 28⟩, ⟨.litE, 28, 28⟩, ⟨.valE, 28, 28⟩,
+      ⟨.objE, 5, 31⟩, ⟨.inlAnnE, 2, 31⟩] := by decide
+
+/-- `"b" // {"enum": ["a", "b"], const: false}`: the list is recorded from bracket to bracket ([21:30]) -/
+example : annEvsQ .inline (Lay.Ex.sB.map classify) [.sp] [.sp] Lay.Ex.gobE.cls [] [] =
+    [⟨.litB, 0, 0⟩, ⟨.litE, 0, 2⟩, ⟨.inlAnnB, 4, 5⟩, ⟨.objB, 7, 7⟩,
+      ⟨.keyB, 8, 8⟩, ⟨.keyE, 8, 18⟩, ⟨.valB, 21, 21⟩, ⟨.arrB, 21, 21⟩,
+      ⟨.itemB, 22, 22⟩, ⟨.litB, 22, 22⟩, ⟨.litE, 22, 24⟩, ⟨.itemE, 22, 24⟩,
+      ⟨.itemB, 27, 27⟩, ⟨.litB, 27, 27⟩, ⟨.litE, 27, 29⟩, ⟨.itemE, 27, 29⟩, ⟨.arrE, 21, 30⟩, ⟨.valE, 21, 30⟩,
+      ⟨.keyB, 33, 33⟩, ⟨.keyE, 33, 37⟩, ⟨.valB, 40, 40⟩, ⟨.litB, 40, 40⟩, ⟨.litE, 40, 44⟩, ⟨.valE, 40, 44⟩,
+      ⟨.objE, 7, 45⟩, ⟨.inlAnnE, 4, 45⟩] := by decide
 
 end Props.C13
